@@ -240,6 +240,20 @@ func TestVerifRaceME(t *testing.T) {
 			time.Sleep(200 * time.Microsecond)
 		}
 	}()
+	// a second application goroutine reconfigures at the same time (a different phase: it adds / removes other endpoints)
+	wg.Add(1)
+	go func() {
+		defer wg.Done()
+		for i := 2; ; i += 3 {
+			select {
+			case <-stop:
+				return
+			default:
+			}
+			gme.UpdateMultiEndpoints(mk(i))
+			time.Sleep(150 * time.Microsecond)
+		}
+	}()
 	// pool state reports from their own goroutines (what the monitor goroutines do), concurrent with the updates
 	for g := 0; g < 2; g++ {
 		wg.Add(1)
